@@ -134,6 +134,16 @@ pub fn run_case(prop: &str, c: Case, w: &mut Worker, ctx: &Ctx, hook: Hook) {
     // is C10's business; here the released signature must verify either way)
     let n = c.alg.n();
     let mut aux0 = libcall::AuxBuf::new(vec![0u8; (4 + n + (n << (c.levels[0].h + 1).min(17))).min(2 << 20)]);
+    // ... and, for the cheaper keys, the aux buffer of ANOTHER key of the same shape (another seed):
+    // marked as in use, MAC of a foreign seed; it must be ignored
+    let mut aux_foreign = if shared::sign_cost(c.alg, &c.levels) < 3.0e6 {
+        let mut a = libcall::AuxBuf::new(vec![0u8; (4 + n + (n << (c.levels[0].h + 1).min(12))).min(1 << 16)]);
+        let other: Vec<u8> = c.seed.iter().map(|b| b ^ 0x5a).collect();
+        let _ = libcall::keygen(c.alg, &c.levels, &other, Some(&mut a));
+        Some(a)
+    } else {
+        None
+    };
     let kp = match libcall::keygen(c.alg, &c.levels, &c.seed, Some(&mut aux0)) {
         Out::Ok(k) => k,
         other => {
@@ -173,7 +183,7 @@ pub fn run_case(prop: &str, c: Case, w: &mut Worker, ctx: &Ctx, hook: Hook) {
                     let msg = rng.bytes(len);
                     let entry = entries[(pi + k) % 3];
                     let rec = match entry {
-                        SignEntry::Bytes => libcall::sign_bytes(c.alg, &blob, &msg, Cb::Accept, if pi % 2 == 1 { Some(&mut aux0) } else { None }),
+                        SignEntry::Bytes => libcall::sign_bytes(c.alg, &blob, &msg, Cb::Accept, if pi % 2 == 1 { Some(&mut aux0) } else if pi % 4 == 2 { aux_foreign.as_mut() } else { None }),
                         SignEntry::TrySignAux => libcall::sign_key(c.alg, &blob, &msg, SignEntry::TrySignAux, Some(&mut aux0)),
                         e => libcall::sign_key(c.alg, &blob, &msg, e, None),
                     };
@@ -223,7 +233,7 @@ pub fn run_case(prop: &str, c: Case, w: &mut Worker, ctx: &Ctx, hook: Hook) {
                     }
                     None => (
                         match entry {
-                            SignEntry::Bytes => libcall::sign_bytes(c.alg, &cur, &msg, Cb::Accept, if step % 2 == 1 { Some(&mut aux0) } else { None }),
+                            SignEntry::Bytes => libcall::sign_bytes(c.alg, &cur, &msg, Cb::Accept, if step % 2 == 1 { Some(&mut aux0) } else if step % 4 == 2 { aux_foreign.as_mut() } else { None }),
                             SignEntry::TrySignAux => libcall::sign_key(c.alg, &cur, &msg, SignEntry::TrySignAux, Some(&mut aux0)),
                             e => libcall::sign_key(c.alg, &cur, &msg, e, None),
                         },
@@ -479,7 +489,7 @@ pub fn run(ctx: &Ctx) -> Report {
     rep.count("keys", n_cases as i128);
     rep.rule = "every released signature is verified through hbs_lms::verify, VerifyingKey+Signature and VerifyingKey+VerifierSignature; \
                 cases = (hash, parameter list, counter, message) from a grid (6 hashes x W x H2/H5 single level, mixed 2..8-level lists, H10 levels, H15 trees (thorough: also inside multi-level keys, and H20)) at \
-                boundary counters (0, 1, around every subtree roll-over, last) plus complete lifetime walks through the callback chain alternating the three signing entry points, with and without the aux buffer that key generation filled (sized to cache the whole top tree, up to 2 MiB); \
+                boundary counters (0, 1, around every subtree roll-over, last) plus complete lifetime walks through the callback chain alternating the three signing entry points, with and without the aux buffer that key generation filled (sized to cache the whole top tree, up to 2 MiB), and with the aux buffer of another key of the same shape; \
                 distinct_nontrivial = distinct (hash, parameter list, counter, message-length class) with >1 level or counter>0 or (n,W) outside SHA-256/32 W1/W2"
         .into();
     // every upper level must have rolled over at least once per hash
